@@ -1,0 +1,70 @@
+//go:build verif
+
+// Contracts for package protobuf (conversions from decoded protobuf messages to
+// domain values), read by the verification-condition generator in /verif (govc).
+// Comments only; compiled only with the build tag "verif".
+//
+// proto.Unmarshal and the generated getters are trusted (nil-safe, no panic);
+// every message pointer may be nil and every repeated field arbitrary.
+
+package protobuf
+
+// The conversion functions are verified for absence of panics without functional
+// contracts (every To* function is executed symbolically with its callees inlined).
+
+// The shared leaf conversions carry thin contracts (what the result guarantees to
+// its callers); their frames are assumed (noframe): they only build new values.
+
+//@ func ToIntSlice
+//@   noframe
+
+//@ func ToBalance
+//@   noframe
+//@   ensures nonNilBals(balance) && nonNeg(balance)
+//@   loop 1
+//@     modifies balance[*]
+//@     invariant fresh(arr(balance)) && off(balance) == 0 && forall k int :: 0 <= k && k < $i ==> balance[k] != nil && val(balance[k]) >= 0
+
+//@ func ToBalances
+//@   noframe
+//@   ensures nonNilBalances(balances) && forall i int :: 0 <= i && i < len(balances) ==> nonNeg(balances[i])
+//@   loop 1
+//@     modifies balances[*]
+//@     invariant fresh(arr(balances)) && off(balances) == 0 && forall k int :: 0 <= k && k < $i ==> nonNilBals(balances[k]) && nonNeg(balances[k])
+
+//@ func ToSubAlloc
+//@   noframe
+//@   ensures nonNilBals(subAlloc.Bals) && nonNeg(subAlloc.Bals)
+
+//@ func ToWalletAddr
+//@   noframe
+//@   ensures result1 == nil ==> result0 != nil && addrMapNonNil(result0)
+//@   loop 1
+//@     modifies addrMap[*]
+//@     invariant addrMap != nil && fresh(addrMap) && addrMapNonNil(addrMap)
+
+//@ func ToWalletAddrs
+//@   noframe
+//@   ensures result1 == nil ==> forall i int :: 0 <= i && i < len(result0) ==> result0[i] != nil && addrMapNonNil(result0[i])
+//@   loop 1
+//@     modifies addrs[*]
+//@     invariant fresh(arr(addrs)) && off(addrs) == 0 && len(addrs) == len(protoAddrs) && forall k int :: 0 <= k && k < $i ==> addrs[k] != nil && addrMapNonNil(addrs[k])
+
+//@ func ToAllocation
+//@   noframe
+//@   ensures err == nil ==> alloc != nil && validAlloc(*alloc) && len(alloc.Backends) == len(alloc.Assets) && nonNilAssets(alloc.Assets) &&
+//@           nonNilBalances(alloc.Balances) && nonNilLocked(alloc.Locked)
+//@   loop 1
+//@     modifies alloc.Assets[*]
+//@     invariant fresh(arr(alloc.Assets)) && off(alloc.Assets) == 0 && len(alloc.Backends) == len(alloc.Assets) && forall k int :: 0 <= k && k < $i ==> alloc.Assets[k] != nil
+//@   loop 2
+//@     modifies alloc.Locked[*]
+//@     invariant fresh(arr(alloc.Locked)) && off(alloc.Locked) == 0 && len(alloc.Backends) == len(alloc.Assets) && nonNilAssets(alloc.Assets) && forall k int :: 0 <= k && k < $i ==> nonNilBals(alloc.Locked[k].Bals)
+
+//@ func ToState
+//@   noframe
+//@   ensures err == nil ==> stateDecoded(state)
+
+//@ func ToParams
+//@   noframe
+//@   ensures result1 == nil ==> result0 != nil
